@@ -159,6 +159,15 @@ func (c *Ctx) snapshot(kind string) {
 	c.mu.Unlock()
 }
 
+// Mark refines the crash-location record inside the current Begin() unit (no new
+// ordinal): the parts identify the exact sub-case being executed.
+func (c *Ctx) Mark(parts ...string) {
+	atomic.StoreInt64(&c.lastBeat, time.Now().UnixNano())
+	if c.state != nil {
+		writeState(c.state, atomic.LoadUint64(&c.ordinal), parts)
+	}
+}
+
 // Beat is a cheap liveness signal for long loops between Begin calls.
 func (c *Ctx) Beat() { atomic.StoreInt64(&c.lastBeat, time.Now().UnixNano()) }
 
@@ -186,6 +195,8 @@ type CheckDef struct {
 	Run   func(c *Ctx)
 	// Replay re-runs one recorded case alone and reports violations through c.
 	Replay func(c *Ctx, cs Case)
+	// ReplayCrash re-runs the sub-case identified by the parts of a crash-location record.
+	ReplayCrash func(c *Ctx, parts []string)
 }
 
 var registry = map[string]*CheckDef{}
@@ -252,20 +263,6 @@ func main() {
 			*props = rf.Prop
 		}
 		c.replaying = true
-		if _, isCrash := rcase["crash_case"]; isCrash {
-			// a case on which the worker died: re-run exactly that ordinal of the enumeration
-			c.replaying = false
-			c.Tier = cStr(rcase, "tier")
-			c.Shard, c.NShards = cInt(rcase, "shard"), cInt(rcase, "n")
-			ord := uint64(cInt(rcase, "ordinal"))
-			c.skipTo, c.until = ord-1, ord
-			*params = cStr(rcase, "params")
-			for _, kv := range strings.Split(*params, ",") {
-				if i := strings.IndexByte(kv, '='); i > 0 {
-					c.Params[kv[:i]] = kv[i+1:]
-				}
-			}
-		}
 	}
 	d := registry[*check]
 	if d == nil {
@@ -317,7 +314,13 @@ func main() {
 		}
 	}()
 	c.start = time.Now()
-	if c.replaying {
+	if parts := cStrs(rcase, "crash_parts"); c.replaying && len(parts) > 0 {
+		if d.ReplayCrash == nil {
+			fmt.Fprintln(os.Stderr, "check has no crash replay")
+			os.Exit(4)
+		}
+		d.ReplayCrash(c, parts)
+	} else if c.replaying {
 		if d.Replay == nil {
 			fmt.Fprintln(os.Stderr, "check has no replay")
 			os.Exit(4)
